@@ -329,8 +329,73 @@ def build(tier):
     vcs += lemmas()
     return {
         'targets': lambda_targets(), 'vcs': vcs, 'functions': fns,
-        'decided': [],
-        'not_decided': [],
-        'assumptions': [],
-        'trusted': [],
+        'decided': [
+            'k-fold and random splitter, for every n in [0, 2^56], folds in [2,100], seed, percentage in [10,90], every fold: |train|+|valid| == n; every input element is copied exactly once into exactly one of train/valid and every slot of both is filled exactly once (=> disjoint, union == input for distinct inputs); both parts are sorted by std::sort over their whole range; one pair per fold',
+            'k-fold: fold f validates exactly positions [f*chunk, f+1<folds ? (f+1)*chunk : n) of the shuffled input, these ranges tile [0,n) (each element validated by exactly one fold), sizes lie in [chunk, chunk+folds) (differ by less than folds)',
+            'random: |train| == round-half-up(percentage*n/100) (idiv<long,int> == round-half-up proved separately and used by contract), every fold is cut from its own reshuffle',
+            'both splitters: the only rng is make_rng(seed) with seed == parameter "splitter::seed" (=> equal seeds give equal splits, given deterministic std::shuffle); no other input is read (closed extraction: every call is mapped)',
+            'every Eigen segment(begin,len) / dst=src / tensor slice / element access / indices_t(size) precondition that NDEBUG compiles out holds at every call site; no signed overflow in any index computation',
+            'sample_without_replacement (0 <= count <= n): count distinct sorted members of the input; sample_with_replacement, uniform and weighted (n >= 1, count >= 0): count sorted members; weighted: the drawn index is used unchanged over the whole weight vector, so no zero-weight index is returned given the STL guarantee',
+            'generator lambdas of sample_with_replacement (CBMC, real memory): the element access is in bounds and the result is an element of the input for every rng state'],
+        'not_decided': [
+            'that std::shuffle/std::sort/std::generate/std::discrete_distribution behave as specified (assumed contracts)',
+            'sample_from_ball (floating-point norm computation: only a real-arithmetic statement would be possible)',
+            'gboost::sampler_t::sample dispatch (switch + float count): not covered',
+            'the convenience overloads that create their own rng (make_rng()) and forward',
+            'n == 0 for sample_with_replacement: excluded by precondition (make_udist(0, -1) violates the library\'s own assert(min <= max) even for count == 0)'],
+        'assumptions': [
+            'std::shuffle(first,last,rng) permutes [first,last) in place, the permutation being a function of the length and the rng state only',
+            'std::sort(first,last) makes [first,last) an ascending permutation of itself',
+            'std::generate(first,last,gen) assigns gen() to every element; one symbolic call of the generator (arbitrary rng state) stands for every call',
+            'std::uniform_int_distribution(lo,hi)(rng) returns a value of [lo,hi]; std::discrete_distribution over n weights draws an index of [0,n) with positive weight',
+            'Eigen: v.segment(b,l) is the view [b,b+l) of v; dst = src copies element-wise; tensor_t::vector()/slice()/size()/operator() are the obvious accessors (models/nv_tensor.h)',
+            'indices_t(size) allocates `size` indeterminate slots; indices_t(view) copies the view; std::move / copy construction of a whole indices_t keeps its contents',
+            'registered parameter domains: splitter::folds in [2,100], splitter::seed in [0,1024], splitter::random::train_per in [10,90] (C19 proves parameters stay in their domains)',
+            'index vectors have at most 2^56 elements',
+            'preconditions taken from the library\'s own (NDEBUG-disabled) asserts: count <= samples.size() (without replacement), samples.size() == weights.size(), and min <= max in make_udist, i.e. a non-empty input for sample_with_replacement; a positive total weight for std::discrete_distribution',
+            'the multiset argument from (copied exactly once / filled exactly once / sizes add up) to (disjoint, union == input) is a pigeonhole step done on paper (module docstring), not by the solver'],
+        'trusted': ['round() in the property statement is read as round-half-away-from-zero (C round), not banker\'s rounding'],
     }
+
+
+def replay(rp):
+    """the real splitters / samplers of the working tree on concrete inputs: first the solver's counterexample (n, folds,
+    seed, percentage, count -- when small enough to run), then the exhaustive small domain of the property statement"""
+    import replaylib
+    out = {'reproduced': False, 'runs': []}
+    tgt = rp.get('target', '')
+    kind = {'kfold_split': 'kfold', 'random_split': 'random', 'idiv<long,int>': 'random', 'sample_without_replacement': 'without',
+            'sample_with_replacement': 'with', 'sample_with_replacement_weighted': 'weighted', 'swr_gen': 'with',
+            'swr_wgen': 'weighted'}.get(tgt)
+    if kind is None:
+        out['note'] = 'no native driver for this target'
+        return out
+    exe = replaylib.build_with_library('replay/C12_replay.cpp', 'C12_replay')
+    cands = []
+    for fo in rp.get('failed_obligations', []):
+        m = replaylib.parse_model((fo.get('counterexample') or {}).get('model', ''))
+        if isinstance(m.get('n'), int) and 0 <= m['n'] <= 5000:
+            if kind in ('kfold', 'random'):
+                cands.append([kind, m['n'], m.get('p_folds', 5), m.get('p_seed', 42), m.get('p_train_per', 80)])
+            elif isinstance(m.get('count'), int) and 0 <= m['count'] <= 5000:
+                cands.append([kind, m['n'], m['count']])
+    if kind in ('kfold', 'random'):
+        cands += [[kind, n, f, s, p] for n in range(0, 41) for f in range(2, 13) for s, p in ((42, 80), (0, 10), (1024, 55))]
+    else:
+        cands += [[kind, n, c] for n in range(1 if kind != 'without' else 0, 13) for c in range(0, (n if kind == 'without' else 2 * n) + 1)]
+    seen = set()
+    for a in cands:
+        if tuple(a) in seen:
+            continue
+        seen.add(tuple(a))
+        try:
+            rc, so, se = replaylib.run_driver(exe, a, timeout=20)
+        except Exception as e:
+            rc, so = -1, repr(e)
+        if rc != 0:
+            out['runs'].append({'args': a, 'exit': rc, 'output': so.strip()[:300]})
+            out['reproduced'] = True
+            if len(out['runs']) >= 5:
+                break
+    out['tried'] = len(seen)
+    return out
